@@ -14,8 +14,9 @@ THEOREMS = [
     "C15_computed_root_table_ok", "C15_root_table_wrong_length", "C15_ifft_fft", "C15_fft_ifft",
     "C15_ifft_with_options_spec", "C15_coset_fft_spec", "C15_coset_ifft_coset_fft", "C15_lde_spec",
     "C15_eval_horner", "C15_divide_by_linear_spec", "C15_mul_spec", "C15_trim_to_len_spec",
-    "C15_trimmed_spec", "C15_div_rem_long_spec", "C15_div_rem_long_zero_divisor",
-    "C15_eval_with_powers_spec", "C15_interpolate2_spec", "C15_interpolate_on_node_partial",
+    "C15_trimmed_spec", "C15_div_rem_long_spec", "C15_div_rem_long_zero_divisor", "C15_inv_mod_xn_spec",
+    "C15_div_rem_spec", "C15_eval_with_powers_spec", "C15_interpolate2_spec",
+    "C15_interpolate_on_node_partial", "C15_barycentric_weights_spec", "C15_interpolate_off_node_spec",
 ]
 
 def source_constants():
@@ -142,8 +143,8 @@ def main():
         "release build: debug_assert!s of PolynomialValues::new / eval_with_powers are not part of the model",
         "div_rem / inv_mod_xn: the defects found on the code before /repo commit 119d559 are repaired; the model mirrors "
         "the repaired code",
-        "interpolate / interpolant / barycentric_weights / ZeroPolyOnCoset / get_unique_coset_shifts: correspondence and "
-        "oracle only, apart from C15_interpolate_on_node_partial and C15_interpolate2_spec"])
+        "interpolant / ZeroPolyOnCoset / get_unique_coset_shifts: correspondence and oracle only (interpolate, "
+        "barycentric_weights, interpolate2 are proved)"])
 
 def replay(c, path):
     r = json.load(open(path))
